@@ -10,7 +10,7 @@ TECHNIQUE = "static analysis over type-checked MIR: decision-table extraction of
 LEVEL_TEXT = """Static decision of: (X1) the COLOR_MODE initialiser as a decision table over the three flags (NO_COLOR, CLICOLOR_FORCE, CLICOLOR read with env::var(NAME).map(|v| v != "0").unwrap_or(default), defaults false/false/true): Never if NO_COLOR, else Always if CLICOLOR_FORCE, else Never if !CLICOLOR, else Auto; (X2) imp::Writer::{stdout,stderr}: Auto => Some iff isatty(fd)==1 with the matching fd, Always => Some, Never => None; (X3) do_write has the truth table is_tty OR NOT tty_only, append encodes only on the do_write edge, the stream matches Target; (X4) the tty operand of X3 must not depend on COLOR_MODE (today it does: known finding D4); (X5) every bounds/overflow assert and the final range index of AnsiWriter::set_style is discharged by index value sets against the buffer length; (X6) SGR shape as a store table: prefix ESC [ 0, text arm ;3<color>, background arm ;4<color>, intense ;1 / ;22, terminator m, contiguous offsets and matching index increments, slice ends at the terminator, color_byte injective onto '0'..'7' in SGR order; (X7) the set of levels for which Highlight sets a style equals the set for which it resets afterwards; (W1) the console wrapper stack forwards io::Write and set_style. What a terminal renders and pty behaviour are not decided."""
 LEVEL_NOTE = "Trusted: rustc MIR/callee resolution; libc::isatty; std::env::var; once_cell::Lazy evaluates the initialiser once. cfg(windows) code is not compiled here and is not analysed."
 EXPLANATION = """Decided: X1 colour decision table, X2 writer selection, X3 do_write table + gating + stream, X4 tty-independence (reports known finding D4), X5 SGR buffer bounds by value sets, X6 SGR store table, X7 highlight pairing, W1 forwarding. Undecided: terminal rendering, pty behaviour, Windows console path (not compiled)."""
-DECIDED = ["X1", "X2", "X3", "X4 (known finding D4)", "X5", "X6", "X7", "W1"]
+DECIDED = ["X1", "X2", "X3", "X4 (known finding D4)", "X5", "X6", "X7", "W1", "X7 highlight pairing by levels and children loops", "X8 style requests travel through every wrapper", "X9/X10 Style and the console builder keep what they are given"]
 UNDECIDED = ["terminal rendering / pty behaviour", "cfg(windows) console code"]
 TRUSTED = ["rustc nightly MIR + Instance::try_resolve", "libc::isatty", "std::env::var", "once_cell::sync::Lazy"]
 
